@@ -157,6 +157,43 @@ Theorem C16_session_check_iff : forall K (mac : K -> bytes -> bytes),
 Proof. exact @sess_check_iff. Qed.
 Print Assumptions C16_session_check_iff.
 
+(** [Sessions.NeedRefresh] as the gate reports it. *)
+Theorem C16_session_refresh_advice : forall K (mac : K -> bytes -> bytes),
+  mac_len_law mac -> mac_bytes_law mac ->
+  forall k maxttl t0 ttl d now,
+  is_bytes d -> is_int64 (t0 + eff_ttl maxttl ttl) -> 0 < maxttl <= max_dur ->
+  t0 <= now < t0 + eff_ttl maxttl ttl ->
+  exists left,
+    sess_check mac k now (fst (sess_new mac k maxttl t0 ttl d)) = Some (d, left) /\
+    left = t0 + eff_ttl maxttl ttl - now /\
+    (need_refresh maxttl left = true <-> t0 + eff_ttl maxttl ttl - now < maxttl / 5).
+Proof. exact @session_refresh_advice. Qed.
+Print Assumptions C16_session_refresh_advice.
+
+(** * Signed challenges *)
+
+Theorem C16_challenge_check_iff : forall K (mac : K -> bytes -> bytes), mac_len_law mac -> mac_bytes_law mac ->
+  forall chal_time k w now bs,
+  challenge_check mac chal_time k w now bs = None <->
+  exists d, bs = sign mac k d /\ chal_instant chal_time d <= now <= chal_instant chal_time d + w.
+Proof. exact @challenge_check_iff. Qed.
+Print Assumptions C16_challenge_check_iff.
+
+Theorem C16_challenge_only_issued : forall K (mac : K -> bytes -> bytes), mac_len_law mac -> mac_bytes_law mac ->
+  forall chal_time k w now issued bs,
+  no_forgery mac k issued bs -> challenge_check mac chal_time k w now bs = None ->
+  exists d, In d issued /\ bs = sign mac k d /\
+            chal_instant chal_time d <= now <= chal_instant chal_time d + w.
+Proof. exact @challenge_only_issued. Qed.
+Print Assumptions C16_challenge_only_issued.
+
+Theorem C16_challenge_without_time_rejected : forall K (mac : K -> bytes -> bytes), mac_len_law mac -> mac_bytes_law mac ->
+  forall chal_time k w now d,
+  chal_time d = None -> is_int64 now -> is_int64 w ->
+  challenge_check mac chal_time k w now (sign mac k d) <> None.
+Proof. exact @challenge_without_time_rejected. Qed.
+Print Assumptions C16_challenge_without_time_rejected.
+
 (** * Time tokens *)
 
 Theorem C16_time_token_open_window : forall K (mac : K -> bytes -> bytes),
@@ -217,6 +254,21 @@ Theorem C16_jwt_hs_verify_iff : forall K (mac : K -> bytes -> bytes) parse_heade
 Proof. exact @hs_verify_iff. Qed.
 Print Assumptions C16_jwt_hs_verify_iff.
 
+(** Whatever JSON the header and claims segments hold. *)
+Theorem C16_jwt_signed_bytes_and_parsed_semantics :
+  forall K (mac : K -> bytes -> bytes) parse_header parse_claims, mac_bytes_law mac ->
+  forall k pin now tok t,
+  hs_verify mac parse_header parse_claims b64_decode_canon k pin now tok = JOk t ->
+  exists hs cs hb cb,
+    tok = hs ++ dot :: cs ++ dot :: b64_encode (mac k (hs ++ dot :: cs)) /\
+    t_payload t = hs ++ dot :: cs /\ t_sig t = mac k (hs ++ dot :: cs) /\
+    nosep dot hs /\ nosep dot cs /\
+    b64_decode_canon hs = Some hb /\ parse_header hb = Some (t_header t) /\
+    b64_decode_canon cs = Some cb /\ parse_claims cb = Some (t_claims t) /\
+    check_header (t_header t) pin = None /\ check_time (t_claims t) now = None.
+Proof. exact @hs_signed_bytes_and_parsed_semantics. Qed.
+Print Assumptions C16_jwt_signed_bytes_and_parsed_semantics.
+
 Theorem C16_jwt_hs_token_unique : forall K (mac : K -> bytes -> bytes) parse_header parse_claims,
   mac_bytes_law mac ->
   forall k pin now now' tok tok' t t',
@@ -268,10 +320,21 @@ Print Assumptions C16_jwt_hs_other_key_rejected.
 
 (** * JWT time, claims, header *)
 
+(** [check_time] models [time.Unix]'s int64 wrap and [Add]'s saturation
+    explicitly; for claim times clear of the wrap ([unix_in_range]: |sec| <= 2^62,
+    which every real token satisfies) it is the linear condition. *)
 Theorem C16_jwt_time : forall c now,
+  unix_in_range (c_iat c) -> unix_in_range (c_exp c) ->
   check_time c now = None <-> c_iat c * sec_ns - grace_ns < now <= c_exp c * sec_ns.
 Proof. exact check_time_iff. Qed.
 Print Assumptions C16_jwt_time.
+
+Theorem C16_key_validity_window : forall M (k : @pubkey M) now,
+  unix_in_range (pk_nvb k) -> unix_in_range (pk_nva k) ->
+  key_valid k now = None <->
+  (pk_nvb k <= 0 \/ pk_nvb k * sec_ns <= now) /\ now <= pk_nva k * sec_ns.
+Proof. exact @key_valid_iff. Qed.
+Print Assumptions C16_key_validity_window.
 
 Theorem C16_jwt_claims_iff : forall c t,
   check_claims c t = None <->
@@ -297,9 +360,9 @@ Theorem C16_rs256_key_checked :
     h_alg (t_header t) = alg_rs256 /\
     card = pre ++ k :: post /\ Forall (fun k' => pk_id k' <> h_kid (t_header t)) pre /\
     pk_id k = h_kid (t_header t) /\ pk_type k = key_type_rsa /\
-    (pk_nvb k <= 0 \/ pk_nvb k * sec_ns <= now) /\ now <= pk_nva k * sec_ns /\
+    key_valid k now = None /\
     parse_key (pk_mat k) = Some rk /\ rsa_verify rk (t_payload t) (t_sig t) = true /\
-    c_iat (t_claims t) * sec_ns - grace_ns < now <= c_exp (t_claims t) * sec_ns.
+    check_time (t_claims t) now = None.
 Proof. exact rs256_key_checked. Qed.
 Print Assumptions C16_rs256_key_checked.
 
@@ -330,6 +393,7 @@ Theorem C16_rs256_expired_key_rejected :
          (card : list (@pubkey M)) now tok t k,
   decode parse_header parse_claims b64_decode_canon tok = JOk t ->
   find_key card (h_kid (t_header t)) = Some k ->
+  unix_in_range (pk_nvb k) -> unix_in_range (pk_nva k) ->
   pk_nva k * sec_ns < now ->
   is_err (rs_verify parse_header parse_claims b64_decode_canon parse_key rsa_verify card now tok).
 Proof.
@@ -348,25 +412,89 @@ Theorem C16_self_token_sound :
 Proof. exact self_verify_sound. Qed.
 Print Assumptions C16_self_token_sound.
 
+(** * Signing side and token exchange *)
+
+Theorem C16_core_sign_key_choice :
+  forall M PM SK (parse_priv : PM -> option SK) (privs : list (bytes * PM)) (card : list (@pubkey M))
+         req now id sk,
+  core_pick parse_priv privs card req now = COk (id, sk) ->
+  exists pm pub,
+    In (id, pm) privs /\ parse_priv pm = Some sk /\
+    (req = [] -> exists p0, (id, pm) = last privs p0) /\ (req <> [] -> id = req) /\
+    find_key card id = Some pub /\ pk_type pub = key_type_rsa /\ key_valid pub now = None.
+Proof. exact (fun M PM SK => @core_pick_sound M PM SK). Qed.
+Print Assumptions C16_core_sign_key_choice.
+
+(** The key chosen for signing at an instant passes all key checks of the
+    verifier at that instant for the same card. *)
+Theorem C16_core_sign_then_verifier :
+  forall M RK (parse_key : M -> option RK) rsa_verify PM SK (parse_priv : PM -> option SK)
+         (privs : list (bytes * PM)) (card : list (@pubkey M)) req now id sk t,
+  core_pick parse_priv privs card req now = COk (id, sk) ->
+  h_kid (t_header t) = id -> h_alg (t_header t) = alg_rs256 ->
+  exists pub, find_key card id = Some pub /\
+    rs_verifier parse_key rsa_verify card t now =
+    match parse_key (pk_mat pub) with
+    | None => Some EKeyParse
+    | Some rk => if rsa_verify rk (t_payload t) (t_sig t) then None else Some EWrongSig
+    end.
+Proof. exact (fun M RK pk rv PM SK => @core_pick_then_verifier M RK pk rv PM SK). Qed.
+Print Assumptions C16_core_sign_then_verifier.
+
+Theorem C16_exchange_sound :
+  forall parse_header parse_claims M RK (parse_key : M -> option RK) rsa_verify S (sess : Z -> bytes -> S)
+         (card : list (@pubkey M)) issuer audience now tok user ttl s,
+  exchange parse_header parse_claims b64_decode_canon parse_key rsa_verify sess
+           card issuer audience now tok user ttl = inl s ->
+  exists t,
+    rs_verify parse_header parse_claims b64_decode_canon parse_key rsa_verify card now tok = JOk t /\
+    field_ok issuer (c_iss (t_claims t)) /\ field_ok audience (c_aud (t_claims t)) /\
+    field_ok user (c_sub (t_claims t)) /\ 0 < ttl /\ s = sess ttl user.
+Proof. exact (fun ph pc M RK pk rv S => @exchange_sound ph pc M RK pk rv S). Qed.
+Print Assumptions C16_exchange_sound.
+
 (** * One-time passcodes *)
 
+(** [short_history]: fewer than 2^63 events, so that the 64-bit attempt counter
+    has not wrapped (see [C16_passcode_counter_and_window_edge_cases]). *)
 Theorem C16_passcode_once_window_limit : forall expiry ops claim id t,
   let '(s, evs) := exec expiry init_state [] ops in
+  short_history evs ->
   snd (step expiry s (PTry claim id t)) = 0%N -> accept_ok expiry evs claim t.
 Proof. exact passcode_once_window_limit. Qed.
 Print Assumptions C16_passcode_once_window_limit.
 
 Theorem C16_passcode_reachable_accept : forall expiry s evs claim id t,
-  reach expiry s evs -> snd (step expiry s (PTry claim id t)) = 0%N -> accept_ok expiry evs claim t.
+  reach expiry s evs -> short_history evs ->
+  snd (step expiry s (PTry claim id t)) = 0%N -> accept_ok expiry evs claim t.
 Proof. exact accepted_only_when_ok. Qed.
 Print Assumptions C16_passcode_reachable_accept.
 
 Theorem C16_passcode_rejected_after_ten_wrong : forall expiry s evs claim id t ti after,
-  reach expiry s evs -> since_issue evs = Some (ti, after) ->
+  reach expiry s evs -> short_history evs -> since_issue evs = Some (ti, after) ->
   10 < Z.of_nat (List.length (filter counted after)) ->
   snd (step expiry s (PTry claim id t)) <> 0%N.
 Proof. exact rejected_after_ten_wrong. Qed.
 Print Assumptions C16_passcode_rejected_after_ten_wrong.
+
+(** Concurrent callers: each operation is one KV Mutate, atomic by C06, so a
+    concurrent execution is an interleaving ([merge]) of the callers' operations;
+    the limit, the window and the single use hold for every interleaving (in
+    particular for a re-issue racing with attempts). *)
+Theorem C16_passcode_concurrent_callers : forall expiry (a b ops : list pop) claim id t,
+  merge a b ops ->
+  let '(s, evs) := exec expiry init_state [] ops in
+  short_history evs ->
+  snd (step expiry s (PTry claim id t)) = 0%N -> accept_ok expiry evs claim t.
+Proof. exact concurrent_callers_atomic. Qed.
+Print Assumptions C16_passcode_concurrent_callers.
+
+(** A stored record that lacks its window (the code's nil Valid / Expire) never
+    lets an attempt through. *)
+Theorem C16_passcode_missing_window_never_accepted : forall claim c t,
+  p_has_valid c = false \/ p_has_expire c = false -> checkPassCode claim (Some c) t <> 0%N.
+Proof. exact missing_window_never_accepted. Qed.
+Print Assumptions C16_passcode_missing_window_never_accepted.
 
 (** What the correspondence runs ([run]) observes is the history the theorems speak about. *)
 Theorem C16_passcode_run_is_exec : forall expiry ops s evs,
@@ -475,6 +603,28 @@ Example C16_key_lookup_exact :
     (mkT (mkH alg_rs256 typ_jwt [108; 97]%N) (mkC [] [] [] 100 0 [] []) [] []) 5 = None.
 Proof. vm_compute. repeat split. Qed.
 
+(** Claim times at the int64 wrap: what the code (and the model) do there. *)
+Example C16_jwt_time_wraps :
+  check_time (mkC [] [] [] (Jwt.two63 - 1) 0 [] []) 1700000000000000000 = Some EExpired /\
+  check_time (mkC [] [] [] 1800000000 (Jwt.two63 - 1) [] []) 1700000000000000000 = None /\
+  check_time (mkC [] [] [] (Jwt.two63 - 1 - unix_to_internal) 0 [] []) 1700000000000000000 = None /\
+  check_time (mkC [] [] [] (Jwt.two63 - unix_to_internal) 0 [] []) 1700000000000000000 = Some EExpired /\
+  check_time (mkC [] [] [] 1800000000 (- Jwt.two63) [] []) 1700000000000000000 = None /\
+  check_time (mkC [] [] [] (- Jwt.two63) (- Jwt.two63) [] []) 0 = Some EExpired.
+Proof. exact check_time_wraps. Qed.
+
+(** A challenge on the toy MAC: the window is closed at both ends. *)
+Example C16_challenge_boundary :
+  let ct := fun _ : bytes => Some 100 in
+  let b := sign toy_mac 7%N [1; 2; 3]%N in
+  challenge_check toy_mac ct 7%N 10 99 b = Some ChFuture /\
+  challenge_check toy_mac ct 7%N 10 100 b = None /\
+  challenge_check toy_mac ct 7%N 10 110 b = None /\
+  challenge_check toy_mac ct 7%N 10 111 b = Some ChExpired /\
+  challenge_check toy_mac (fun _ => None) 7%N 10 100 b = Some ChExpired /\
+  need_refresh 1000 199 = true /\ need_refresh 1000 200 = false /\ need_refresh 0 5 = false.
+Proof. vm_compute. repeat split. Qed.
+
 (** Session and time-token boundaries on a concrete instance. *)
 Example C16_session_boundary :
   let '(tok, e) := sess_new toy_mac 7%N 1000 5000 0 [65]%N in
@@ -493,6 +643,23 @@ Example C16_passcode_witness :
   snd (step 1000 (fst witness_run) (PTry 2 5 1101)) = 7%N /\
   snd (step 1000 (fst (step 1000 (fst witness_run) (PTry 2 5 1100))) (PTry 2 6 1100)) = 5%N.
 Proof. exact accept_ok_witness. Qed.
+
+(** The dependency on atomic Mutate, the wrapping counter and the missing window, concretely. *)
+Example C16_passcode_needs_atomic_mutate :
+  let s := fst (step 1000 init_state (PNew 0)) in
+  fst (racy_two_attempts 1000 s (PTry 1 7 5) (PTry 1 8 5)) = (0%N, 0%N) /\
+  snd (step 1000 (fst (step 1000 s (PTry 1 7 5))) (PTry 1 8 5)) = 5%N.
+Proof. exact without_atomic_mutate_a_code_is_used_twice. Qed.
+
+Example C16_passcode_counter_and_window_edge_cases :
+  let s := mkR false (Some (mkPC 1 true 0 true 100 false (two63 - 1))) None 1 in
+  snd (step 1000 s (PTry 1 7 5)) = 0%N /\
+  snd (step 1000 (mkR false (Some (mkPC 1 true 0 true 100 false 11)) None 1) (PTry 1 7 5)) = 4%N /\
+  snd (step 1000 (mkR false (Some (mkPC 1 false 0 true 100 false 0)) None 1) (PTry 1 7 5)) = 9%N.
+Proof. exact counter_wraps_at_two63. Qed.
+
+Example C16_passcode_short_history_satisfiable : short_history (snd witness_run).
+Proof. vm_compute. reflexivity. Qed.
 
 Example C16_passcode_legacy_refuted :
   last (map fst (run_with false 600000000000 init_state fifteen_wrong_then_right)) 9%N = 0%N /\
